@@ -643,7 +643,7 @@ Qed.
    the frame without the payload still owed; the payload cell remembers what is owed *)
 Definition inline_payload (buf : option bytes) : bytes := match buf with Some b => b | None => [] end.
 
-Theorem v5_size_agrees_publish c p buf w c' :
+Lemma encodev_publish_inv c p buf w c' :
   encodev c (EPublish p buf) = ((w, Ok tt), c') ->
   let sz := publish_encoded_size p (max_size_of c) in
   sz <= max_size_of c /\
@@ -652,7 +652,7 @@ Theorem v5_size_agrees_publish c p buf w c' :
   ec_max_out_size c' = ec_max_out_size c /\ ec_max_out_frame c' = ec_max_out_frame c /\
   ec_no_problem_info c' = ec_no_problem_info c /\
   exists body, is_frame (publish_first_byte p) sz w (body ++ inline_payload buf) /\
-               len body + p_payload_size p = sz.
+               len body + p_payload_size p = sz /\ publish_body p sz = (body, Ok tt).
 Proof.
   intros H. apply encodev_ok in H. unfold encode_item in H.
   replace (if ec_no_problem_info c then strip_problem_info (EPublish p buf) else EPublish p buf)
@@ -675,10 +675,25 @@ Proof.
   destruct buf as [b|]; cbn [inline_payload].
   - assert (len b <= p_payload_size p) by lia. rewrite N.mod_small in H by (unfold TWO32, VI_MAX in *; lia).
     rewrite sub_chk_ok in H by lia. injection H as <- <-. cbn.
-    repeat split; try lia. exists body. split; [|lia].
+    repeat split; try lia. exists body. split; [|split; [lia|exact E4]].
     exists vi. split; [assumption|]. cbn [app]. now rewrite <- !app_assoc.
   - injection H as <- <-. cbn. rewrite N.sub_0_r. repeat split; try lia.
-    exists body. split; [|lia]. exists vi. split; [assumption|]. now rewrite app_nil_r.
+    exists body. split; [|split; [lia|exact E4]]. exists vi. split; [assumption|]. now rewrite app_nil_r.
+Qed.
+
+Theorem v5_size_agrees_publish c p buf w c' :
+  encodev c (EPublish p buf) = ((w, Ok tt), c') ->
+  let sz := publish_encoded_size p (max_size_of c) in
+  sz <= max_size_of c /\
+  len (inline_payload buf) <= p_payload_size p /\
+  ec_encoding_payload c' = nonzero (p_payload_size p - len (inline_payload buf)) /\
+  ec_max_out_size c' = ec_max_out_size c /\ ec_max_out_frame c' = ec_max_out_frame c /\
+  ec_no_problem_info c' = ec_no_problem_info c /\
+  exists body, is_frame (publish_first_byte p) sz w (body ++ inline_payload buf) /\
+               len body + p_payload_size p = sz.
+Proof.
+  intros H. apply encodev_publish_inv in H. cbv zeta in *.
+  destruct H as (? & ? & ? & ? & ? & ? & body & ? & ? & _). repeat split; try assumption. eauto.
 Qed.
 
 (* payload chunks are appended verbatim *)
